@@ -342,7 +342,7 @@ Record record_data := {
   rd_date : date; rd_should : option Z; rd_summary : list bytes; rd_tags : list bytes; rd_entries : list entry_data }.
 
 (* the tags of a summary in the notation and order of the output (Summary.Tags() is [summary_tags]: Proofs/Tags.v) *)
-Definition tags_of (lines : list bytes) : list bytes := sorted_tag_strings (summary_tags go_is_letter go_to_lower lines).
+Definition tag_strings (lines : list bytes) : list bytes := sorted_tag_strings (summary_tags go_is_letter go_to_lower lines).
 
 Definition value_data_of (v : evalue) : value_data :=
   match v with
@@ -351,10 +351,10 @@ Definition value_data_of (v : evalue) : value_data :=
   | VOpen o => DOpen (o_start o)
   end.
 Definition entry_data_of (e : entry) : entry_data :=
-  {| ed_value := value_data_of (e_value e); ed_summary := e_summary e; ed_tags := tags_of (e_summary e) |}.
+  {| ed_value := value_data_of (e_value e); ed_summary := e_summary e; ed_tags := tag_strings (e_summary e) |}.
 Definition data_of (r : record) : record_data :=
   {| rd_date := rec_date r; rd_should := rec_should r; rd_summary := rec_summary r;
-     rd_tags := tags_of (rec_summary r); rd_entries := map entry_data_of (rec_entries r) |}.
+     rd_tags := tag_strings (rec_summary r); rd_entries := map entry_data_of (rec_entries r) |}.
 
 Definition time_of (s : bytes) : option time := match parse_time s with Ok t => Some t | _ => None end.
 Definition date_of (s : bytes) : option date := match parse_date s with Ok d => Some d | _ => None end.
